@@ -428,9 +428,12 @@ fn resolve<'a, E: 'a + Send, R: Resolver>(
             .map(move |res| match res {
                 Ok(ips) => {
                     let mut ips = ips.iter();
-                    let one = ips
-                        .next()
-                        .expect("If there are no results, `Err(NoRecordsFound)` is expected.");
+                    let Some(one) = ips.next() else {
+                        // An answer without any usable address record (empty or e.g. CNAME-only).
+                        return Err(Error::ResolveError(ResolveError::from(
+                            "DNS answer contains no address records",
+                        )));
+                    };
                     if let Some(two) = ips.next() {
                         Ok(Resolved::Many(
                             iter::once(one)
@@ -457,9 +460,12 @@ fn resolve<'a, E: 'a + Send, R: Resolver>(
                             RData::A(ip) => Some(Ipv4Addr::from(*ip)),
                             _ => None,
                         });
-                    let one = ips
-                        .next()
-                        .expect("If there are no results, `Err(NoRecordsFound)` is expected.");
+                    let Some(one) = ips.next() else {
+                        // An answer without any usable address record (empty or e.g. CNAME-only).
+                        return Err(Error::ResolveError(ResolveError::from(
+                            "DNS answer contains no address records",
+                        )));
+                    };
                     if let Some(two) = ips.next() {
                         Ok(Resolved::Many(
                             iter::once(one)
@@ -486,9 +492,12 @@ fn resolve<'a, E: 'a + Send, R: Resolver>(
                             RData::AAAA(ip) => Some(Ipv6Addr::from(*ip)),
                             _ => None,
                         });
-                    let one = ips
-                        .next()
-                        .expect("If there are no results, `Err(NoRecordsFound)` is expected.");
+                    let Some(one) = ips.next() else {
+                        // An answer without any usable address record (empty or e.g. CNAME-only).
+                        return Err(Error::ResolveError(ResolveError::from(
+                            "DNS answer contains no address records",
+                        )));
+                    };
                     if let Some(two) = ips.next() {
                         Ok(Resolved::Many(
                             iter::once(one)
